@@ -322,6 +322,51 @@ def rule_prov(ctx) -> RuleResult:
     return res
 
 
+def rule_parent(ctx) -> RuleResult:
+    from ._c09_parent import Interp, container_deletes, describe
+
+    res = RuleResult(
+        "C09.PARENT",
+        "C09",
+        "on the stored node of its target's PARENT a writer function deletes only the entry keyed by the target's own uid; a "
+        "member named by a constant (a container shared by all the siblings) is deleted only on paths where the member count "
+        "and membership tests that were evaluated, at the time they were evaluated and carried through the deletions and "
+        "creations since, prove it empty or holding the target alone",
+        floor=2,
+    )
+    p = ctx.p
+    W = p.cls("H5Writer")
+    for name, fn0 in W.methods.items():
+        fn = ctx.view(fn0)
+        if not any(isinstance(n, ast.Delete) for n in ast.walk(fn.node)):
+            continue
+        who = Who(fn, p)
+        allowed = allowed_exprs(who.params) | ancestor_locals(fn, who.params)
+        P, dels = container_deletes(fn, who, allowed)
+        for node, base, key, w, cid, is_target in dels:
+            where = f"{fn.module.relpath}:{node.lineno}"
+            head = f"H5Writer.{name}:{node.lineno} del on the node of {sorted(w)}"
+            if cid is None:
+                if is_target is False:
+                    u = who.uid_expr(key)
+                    res.inst(f"{head}: entry keyed by the uid of {u}", nontrivial=True, ok=False)
+                    res.find("H5Writer", name, f"deletes the parent's entry of {u}, not of its target", where,
+                             f"H5Writer.{name} removes from its target's parent the entry of `{u}`: a sibling loses its link")
+                else:
+                    res.inst(f"{head}: " + ("entry keyed by the target's uid" if is_target else "key not determined (left to C09.PROV)"), ok=True)
+                continue
+            bad = Interp(fn, P, cid, set(W.methods)).run().get(id(node), set())
+            label = describe(cid)
+            res.inst(f"{head}: whole member '{label}' — worlds (count, target inside) reaching it unproven: {sorted(bad)}", nontrivial=True, ok=not bad)
+            if bad:
+                res.find("H5Writer", name, f"deletes the parent's whole member '{label}' on a path where it may hold other entries", where,
+                         f"H5Writer.{name} deletes `{label}` of its target's parent while it can still hold "
+                         + ("another entity's entry" if any(b[0] == 1 for b in bad) else "several entries")
+                         + " (the emptiness test does not hold at the deletion: evaluated before a removal, too weak, or absent): "
+                         "the siblings' stored form vanishes with it")
+    return res
+
+
 def _notin_facts(test, truth):
     if isinstance(test, ast.UnaryOp) and isinstance(test.op, ast.Not):
         return _notin_facts(test.operand, not truth)
@@ -502,4 +547,6 @@ def rule_handle(ctx) -> RuleResult:
     return res
 
 
-RULES = [rule_prov, rule_idemp, rule_handle]
+from ._c09_sweep import rule_given, rule_typesweep  # noqa: E402
+
+RULES = [rule_prov, rule_idemp, rule_handle, rule_parent, rule_given, rule_typesweep]
